@@ -37,6 +37,12 @@ property oracle on the real code's outputs.  Streams:
       restart offset (0 / 1 / mid / block boundaries / size-1 / size / beyond) x size (10 B, one block, 3 blocks
       + tail, 2 MiB, 8-12 MiB of pairwise distinct blocks) x a receiver throttled below the sender's speed
       (the sender's transport has to queue).  Only byte equality is asserted, never timing.
+  (d9 / h / i) HOW THE CALLER CONSUMES what it is handed: consumption PROGRAMS (`consume_program`: iter_by_block(n) loops
+      left before EOF, resumed, followed by read(k) / read() / readline() / iter_by_line() / a second loop with another
+      n, the caller busy or not in between) on the stream of download_stream -- simnet (section 9 of the matrix) and real
+      sockets (stream h) -- and on ONE open path-io file object (stream i: MemoryPathIO / PathIO / AsyncPathIO,
+      AsyncPathIOContext.iter_by_block + read, from a seek position).  Oracle: the concatenation of everything consumed
+      = the exact bytes, whatever the program.
 
 Smoke test of the session driver:
     PYTHONPATH=/repo/src:. /venv/bin/python -c "from harness.props import c01; print(c01.smoke())"
@@ -87,7 +93,10 @@ LEVEL_TEXT = (
     "C01_stor_prog_exact, C01_retr_prog_exact, C01_upload_prog_exact, C01_download_prog_exact, C01_upload_path_exact, "
     "C01_download_path_exact (about the translated programs); C01_timed_reads_conforming, C01_timed_stor_exact, "
     "C01_stor_timing_irrelevant, C01_timed_stor_is_untimed, C01_timed_upload_exact, C01_timed_retr_exact, "
-    "C01_retr_timing_irrelevant (every throttle state machine, every arrival instant, every latency) — for every payload, pre-existing content, offset, block size "
+    "C01_retr_timing_irrelevant (every throttle state machine, every arrival instant, every latency), "
+    "C01_retr_consumption_program_exact, C01_consumption_program_irrelevant, C01_file_consumption_program_exact (every PROGRAM by which "
+    "the caller consumes a download stream / a path-io file object: iter_by_block(n) loops with changing n left before EOF, resumed, "
+    "interleaved with direct reads, ended by read()) — for every payload, pre-existing content, offset, block size "
     ">= 1, segmentation, arrival schedule, read-size sequence, short-read sequence and flush behaviour. The model is "
     "hand-written around translated loop programs; its tie to the code is (i) the regenerated structural facts and programs and (ii) sampled + bounded-exhaustive agreement "
     "with the real code (several thousand real transfers per quick run), so the assurance is a proof about the model plus "
@@ -383,6 +392,7 @@ def case_defaults(case):
         "stall": None,  # [t, d]: both directions of the data channel deliver nothing from t to t+d (virtual s) after connecting
         "driver": "sim",  # "sim": simnet (virtual clock, scripted segmentation); "tcp": real sockets on 127.0.0.1, real event loop
         "client_fs": "memory",  # UPLOAD / DOWNLOAD: the client's own file system: memory / pathio / asyncpathio (real files need driver tcp)
+        "consume": None,  # RETR: a consumption PROGRAM for the download stream (see consume_program); None: one read() / one loop
         "payload_gen": None,  # [seed, size]: the payload is random.Random(seed).randbytes(size) (files of several MiB stay out of the replay file)
     }
     c.update(case)
@@ -448,7 +458,65 @@ async def _observe(cl, name):
     return out
 
 
-async def _transfer(client, verb, name, payload, offset, chunks, cblock):
+async def consume_program(obj, prog):
+    """HOW THE CALLER CONSUMES a readable object (the stream of `download_stream` / `get_stream`, or a path-io
+    file object): a sequence of
+      ["iter", n, k]   a NEW `iter_by_block(n)` loop, left with `break` after k blocks (k = 0: run to EOF)
+      ["resume", k]    the iterator of the last loop is advanced k more blocks (0: to EOF): interrupted and resumed
+      ["read", k]      one `read(k)` (k = -1: `read()`, everything up to EOF)
+      ["readline"]     one `readline()`;  ["lines", k]  a new `iter_by_line()` loop left after k lines  (streams only)
+      ["pause", t]     the caller is busy for t seconds (virtual on simnet) before it goes on
+    and finally everything that is left (`read()`).  Returns the concatenation of everything consumed, in order."""
+    got = []
+    it = None
+
+    async def advance(it, k):
+        i = 0
+        while k == 0 or i < k:
+            try:
+                got.append(await it.__anext__())
+            except StopAsyncIteration:
+                break
+            i += 1
+
+    for op in prog:
+        kind = op[0]
+        if kind == "iter":
+            if op[2] == 0:
+                async for block in obj.iter_by_block(op[1]):
+                    got.append(block)
+                it = None
+            else:
+                i = 0
+                it = obj.iter_by_block(op[1])
+                async for block in it:
+                    got.append(block)
+                    i += 1
+                    if i >= op[2]:
+                        break
+        elif kind == "resume":
+            if it is not None:
+                await advance(it, op[1])
+        elif kind == "read":
+            got.append(await (obj.read() if op[1] < 0 else obj.read(op[1])))
+        elif kind == "readline":
+            got.append(await obj.readline())
+        elif kind == "lines":
+            i = 0
+            async for line in obj.iter_by_line():
+                got.append(line)
+                i += 1
+                if i >= op[1]:
+                    break
+        elif kind == "pause":
+            await asyncio.sleep(op[1])
+        else:
+            raise ValueError(kind)
+    got.append(await obj.read())
+    return b"".join(got)
+
+
+async def _transfer(client, verb, name, payload, offset, chunks, cblock, consume=None):
     """one transfer through the real client API; returns bytes received (RETR) or None"""
     if verb in ("STOR", "APPE"):
         factory = client.upload_stream if verb == "STOR" else client.append_stream
@@ -461,7 +529,9 @@ async def _transfer(client, verb, name, payload, offset, chunks, cblock):
     if verb == "RETR":
         got = []
         async with client.download_stream(name, offset=offset) as stream:
-            if cblock is None and not chunks:
+            if consume is not None:
+                got.append(await consume_program(stream, consume))
+            elif cblock is None and not chunks:
                 got.append(await stream.read())
             elif chunks:
                 i = 0
@@ -639,7 +709,7 @@ async def _run_case(net, case, base, cbase=None):
             watcher = asyncio.get_running_loop().create_task(watch())
         res["t_start"] = asyncio.get_running_loop().time()
         if verb in ("STOR", "APPE", "RETR"):
-            res["received"] = await _transfer(client, verb, FNAME, payload, offset, case["chunks"], case["cblock"])
+            res["received"] = await _transfer(client, verb, FNAME, payload, offset, case["chunks"], case["cblock"], case["consume"])
         elif verb == "UPLOAD" and real_cfs:
             (cbase / "local.bin").write_bytes(payload)
             await client.upload(cbase / "local.bin", "/" + FNAME, write_into=True, block_size=case["cblock"] or 8192)
@@ -1048,6 +1118,51 @@ def pure_streams(ctx, xcheck, scale):
 
 
 # --------------------------------------------------------------------------------------------
+def gen_consume_programs(rng, B, pause, n_random, stream=True):
+    """consumption programs (see consume_program) around a block size B: loops left before EOF and followed by a
+    read() / a second loop / the resumed iterator, changing block sizes, read(k) and readline() in between,
+    the caller busy (or not) between two phases"""
+    B1 = max(1, B - 1)
+    progs = [
+        [["iter", B, 0]],
+        [["iter", B, 1], ["pause", pause], ["read", -1]],
+        [["iter", B, 2], ["pause", pause], ["read", -1]],
+        [["iter", B, 1], ["pause", pause], ["iter", 2 * B, 0]],
+        [["iter", B, 1], ["read", -1]],
+        [["iter", B, 1], ["pause", 0], ["iter", B, 0]],
+        [["iter", B, 2], ["pause", pause], ["resume", 0]],
+        [["iter", B, 1], ["pause", pause], ["read", 7], ["iter", 3, 2], ["pause", pause], ["resume", 1], ["read", B], ["iter", B + 1, 0]],
+        [["read", 5], ["iter", B, 1], ["pause", pause], ["iter", B1, 1], ["pause", pause], ["read", -1]],
+        [["iter", B, 1], ["pause", pause], ["iter", B, 1], ["pause", pause], ["iter", B, 1], ["pause", pause], ["read", B]],
+    ]
+    if stream:
+        progs.append([["readline"], ["iter", B, 1], ["pause", pause], ["readline"], ["lines", 2], ["pause", pause], ["read", 4]])
+    for _ in range(n_random):
+        prog = []
+        for _ in range(rng.randint(1, 6)):
+            kind = rng.choice(["iter", "iter", "iter", "read", "read", "resume"] + (["readline", "lines"] if stream else []))
+            if kind == "iter":
+                prog.append(["iter", rng.choice([1, 2, 3, B1, B, B + 1, 2 * B]), rng.choice([0, 1, 1, 2, 3])])
+            elif kind == "read":
+                prog.append(["read", rng.choice([0, 1, 2, B1, B, B + 1, 3 * B])])
+            elif kind == "resume":
+                prog.append(["resume", rng.choice([0, 1, 2])])
+            elif kind == "lines":
+                prog.append(["lines", rng.choice([1, 2])])
+            else:
+                prog.append(["readline"])
+            if rng.random() < 0.6:
+                prog.append(["pause", rng.choice([0, pause])])
+        progs.append(prog)
+    return progs
+
+
+def consume_label(prog):
+    kinds = [op[0] for op in prog if op[0] != "pause"]
+    left = any(op[0] == "iter" and op[2] > 0 for op in prog)
+    return ("consume_single_op" if len(kinds) == 1 else "consume_mixed_ops") + ("_loop_left_before_eof" if left else "")
+
+
 def classify_offset(off, n):
     if off == 0:
         return "off=0"
@@ -1249,6 +1364,20 @@ def gen_session_cases(ctx, scale):
             chunks=rng.choice([[], [20000, 1, 30000]]) if verb != "RETR" else [], _plabel="over-64KiB")
     # and a REST that is cancelled by a later non-transfer command before the transfer (whole file)
     add(verb="RETR", payload=b"0123456789", offset=0, block_size=4, pre=[("CMD", "REST 3"), ("CMD", "TYPE I")], _plabel="rest-then-type")
+    # -- 9. HOW THE CALLER CONSUMES the download stream: consumption programs (iter_by_block(n) loops left before EOF,
+    #       resumed, followed by read(k) / read() / readline() / a second loop with another n, the caller busy in between)
+    prng = random.Random(rng.randrange(10**9))  # its own stream
+    for size, B, bs in ((37, 3, 4), (700, 64, 64), (3107, 512, None)):
+        alphabet = bytes(range(256)) if size > 100 else b"ab\r\n\x00\xff"
+        for prog in gen_consume_programs(prng, B, 1.0, 8 if thorough else 4):
+            payload = bytes(prng.choice(alphabet) for _ in range(size)) if size <= 100 else prng.randbytes(size)
+            seg = prng.choice([{"kind": "whole"}, {"kind": "whole"}, {"kind": "bytes"} if size < 100 else {"kind": "random", "seed": prng.randrange(10**6), "max": 2 * B},
+                               {"kind": "random", "seed": prng.randrange(10**6), "max": 9 if size < 100 else 300}])
+            add(verb="RETR", payload=payload, offset=prng.choice([0, 0, 1, size // 3, size - 1]), block_size=bs, consume=prog,
+                backend=prng.choice(["memory", "memory", "pathio", "asyncpathio"]), seg_data=seg, passive=next(toggle),
+                latency=prng.choice([{"data": 0, "ctrl": 0}, {"data": 0.3, "ctrl": 0}]), _plabel="consume-program")
+    for size in (0, 1):
+        add(verb="RETR", payload=b"x" * size, offset=0, block_size=4, consume=[["iter", 2, 1], ["pause", 1.0], ["read", -1]], _plabel="consume-program")
     return cases
 
 
@@ -1378,6 +1507,8 @@ def session_stream(ctx, xcheck, scale, reps=1):
             ctx.count("latency")
         if c["stall"]:
             ctx.count("stalled_mid_transfer")
+        if c["consume"] is not None:
+            ctx.count(consume_label(c["consume"]))
         if c["local_old"] is not None:
             ctx.count("download_onto_existing_local_file")
         ctx.count("observed_before_by_" + str(c["observe_before"]).lower())
@@ -1930,6 +2061,15 @@ def gen_real_cases(ctx):
     for backend, cfs in combos:
         add("real_big", backend=backend, verb="UPLOAD", payload_gen=[rng.randrange(10**9), big_up], client_fs=cfs, throttle={"server_read": slow})
         add("real_big", backend=backend, verb="DOWNLOAD", payload_gen=[rng.randrange(10**9), big], client_fs=cfs, throttle={"client_read": slow})
+    # how the caller consumes the download stream (consumption programs), on real sockets
+    prng = random.Random(rng.randrange(10**9))
+    for backend in REAL_BACKENDS:
+        gen_small, gen_mid = [prng.randrange(10**9), 3107], [prng.randrange(10**9), 300000 + 77]
+        progs = gen_consume_programs(prng, 512, 0.03, 3 if thorough else 1)
+        for prog in progs if thorough else [progs[i] for i in (1, 3, 5, 7, 8, 10, 11)]:
+            add("real_consume", backend=backend, verb="RETR", payload_gen=gen_small, offset=prng.choice([0, 0, 700]), consume=prog)
+        for prog in gen_consume_programs(prng, 8192, 0.03, 0)[1:4 if thorough else 3]:
+            add("real_consume", backend=backend, verb="RETR", payload_gen=gen_mid, offset=prng.choice([0, 8193]), consume=prog)
     gen = [rng.randrange(10**9), 2 * MIB + 17]
     for backend in REAL_BACKENDS:
         add("real_2mib", backend=backend, verb="RETR", payload_gen=gen, offset=rng.choice([1, MIB, 2 * MIB + 16]), cblock=rng.choice([None, 8192, 65536]))
@@ -1968,6 +2108,8 @@ def real_stream(ctx, xcheck):
             ctx.count("real_client_fs_" + c["client_fs"])
         if c["throttle"]:
             ctx.count("real_slow_receiver")
+        if c["consume"] is not None:
+            ctx.count("real_" + consume_label(c["consume"]))
         if i not in model_out:
             ctx.count("real_cases_beyond_model_size_oracle_only")
         n_exist = len(c["payload"]) if c["verb"] in ("RETR", "DOWNLOAD") else len(c["old"] or b"")
@@ -1976,6 +2118,83 @@ def real_stream(ctx, xcheck):
     ctx.count("real_loopback_cases", len(cases))
     ctx.extra["real_loopback_wall_s"] = round(time.time() - t0, 1)
 
+
+# --------------------------------------------------------------------------------------------
+# (i) path-io FILE objects consumed by programs: AsyncPathIOContext.iter_by_block / read on all three backends
+FILE_BUDGET = 30  # wall seconds for one file case (real event loop, executor jobs for AsyncPathIO)
+
+
+async def _file_consume(backend, root, payload, offset, prog):
+    pio = CLIENT_FS[backend]()
+    path = pathlib.PurePosixPath("/f.bin") if backend == "memory" else root / "f.bin"
+    async with pio.open(path, mode="wb") as f:
+        await f.write(payload)
+    async with pio.open(path, mode="rb") as f:
+        if offset:
+            await f.seek(offset)
+        return await consume_program(f, prog)
+
+
+def run_file_consume(backend, payload, offset, prog, budget=None):
+    """one path-io file of `payload`, opened 'rb', positioned at `offset`, consumed by `prog`; the bytes consumed, or
+    {"error": ...} (an exception or no verdict within the budget is an observation)"""
+    import tempfile
+
+    root = pathlib.Path(tempfile.mkdtemp(prefix="c01-file-"))
+    try:
+        return asyncio.run(asyncio.wait_for(_file_consume(backend, root, payload, offset, prog), budget or FILE_BUDGET))
+    except BaseException as e:
+        if isinstance(e, (KeyboardInterrupt, SystemExit)):
+            raise
+        return {"error": type(e).__name__ + ":" + str(e)[:80], "timeout": isinstance(e, (TimeoutError, asyncio.TimeoutError))}
+    finally:
+        shutil.rmtree(root, ignore_errors=True)
+
+
+def run_file_consume_twice(backend, payload, offset, prog):
+    got = run_file_consume(backend, payload, offset, prog)
+    if isinstance(got, dict) and got.get("timeout"):
+        # real clock (executor threads): a correct run on a loaded machine may exceed the budget; repeated once, generously
+        got = run_file_consume(backend, payload, offset, prog, FILE_BUDGET * 4)
+    return got
+
+
+def file_consume_verdict(payload, offset, got):
+    want = payload[offset:]
+    return (not isinstance(got, dict)) and got == want, want
+
+
+def file_consume_stream(ctx, xcheck):
+    """a file read through the path-io layer (what Client.upload()'s source side and the server's RETR use): the concatenation of
+    everything a consumption program takes from ONE open file object = the bytes of the file from the position on"""
+    prng = random.Random(ctx.rng.randrange(10**9))
+    thorough = ctx.tier == "thorough"
+    n = 0
+    t0 = time.time()
+    for backend in REAL_BACKENDS:
+        for size, B in ((37, 3), (3107, 512)) + (((70000, 8192),) if thorough else ()):
+            payload = prng.randbytes(size)
+            for prog in gen_consume_programs(prng, B, 0.01, 6 if thorough else 3, stream=False):
+                offset = prng.choice([0, 0, 1, size // 2, size, size + 3])
+                got = run_file_consume_twice(backend, payload, offset, prog)
+                ctx.traces_impl += 1
+                n += 1
+                ctx.case(("file-consume", backend, size, offset, repr(prog)))
+                ctx.count("file_consume_backend_" + backend)
+                ctx.count("file_" + consume_label(prog))
+                ok, want = file_consume_verdict(payload, offset, got)
+                if not ok:
+                    rep = {"key": "c01-file-consumed-differs", "file_consume": {"backend": backend, "payload_gen": None, "payload": {"hex": payload.hex()},
+                                                                                "offset": offset, "consume": prog}}
+                    if isinstance(got, dict):
+                        rep["error"] = got["error"]
+                        ctx.violation(f"path-io file ({backend}) consumed by a program: {got['error']}", rep)
+                    else:
+                        rep.update(consumed_len=len(got), expected_len=len(want), first_difference_at=first_difference(got, want),
+                                   consumed=got.hex()[:200], expected=want.hex()[:200])
+                        ctx.violation(f"path-io file ({backend}): the bytes consumed from one open file object differ from the file's content", rep)
+    ctx.count("file_consume_cases", n)
+    ctx.extra["file_consume_wall_s"] = round(time.time() - t0, 1)
 
 
 def correspondence(ctx, scale=None):
@@ -2006,7 +2225,11 @@ def correspondence(ctx, scale=None):
         "upload_stream / append_stream at REST 0 / 1 / mid / size / size+5 onto missing / existing content x upload() / download() x sizes 10, "
         "8192, 24699, 2 MiB + 17, and files of 8-12 MiB of pairwise distinct random blocks moved with upload() / download() towards a "
         "receiver throttled to 6 MiB/s (the sender's transport has to queue: partial send(), write buffer between the water marks); "
-        "byte equality with the plain-Python oracle for all, with the model for everything below 40 000 bytes; never a timing assertion. A case "
+        "byte equality with the plain-Python oracle for all, with the model for everything below 40 000 bytes; never a timing assertion; "
+        "consumption programs (how the CALLER consumes what it is handed): 10-11 fixed + random sequences of [iter_by_block(n) loop left after k "
+        "blocks | resume | read(k) | readline | iter_by_line x k | pause] ended by read(), n around the block size, on the download stream on simnet "
+        "(3 sizes x backends x segmentations x latency x REST offset), on real sockets (3 backends, 3107 B and 300 077 B) and on one open path-io file "
+        "object (MemoryPathIO / PathIO / AsyncPathIO, seek position 0 / 1 / mid / size / beyond); oracle: concatenation of everything consumed = the exact bytes. A case "
         "is non-trivial when its full input tuple is distinct (hash); every session case moves real bytes through the real code."
     )
     xcheck = []
@@ -2016,6 +2239,7 @@ def correspondence(ctx, scale=None):
     missing_restart_stream(ctx, xcheck)
     files_stream(ctx, xcheck, scale)
     real_stream(ctx, xcheck)
+    file_consume_stream(ctx, xcheck)
     ok, out = core.vm_crosscheck(EXTRACT, xcheck[:100])
     ctx.extra["vm_compute_crosscheck"] = {"cases": len(xcheck[:100]), "agree": ok}
     if not ok:
@@ -2054,6 +2278,15 @@ def replay(ctx, data):
         print("steps:", steps)
         print("observed:", [_hexfs(g) for g in got], [o for o in obs if o[0] == "exception"])
         print("expected:", [_hexfs(w) for w in want])
+        return ok
+    if "file_consume" in r:
+        fc = r["file_consume"]
+        payload = bytes.fromhex(fc["payload"]["hex"])
+        got = run_file_consume_twice(fc["backend"], payload, fc["offset"], fc["consume"])
+        ok, want = file_consume_verdict(payload, fc["offset"], got)
+        print("program:", fc["consume"], "backend:", fc["backend"], "offset:", fc["offset"])
+        print("consumed:", got if isinstance(got, dict) else (len(got), got.hex()[:120]))
+        print("expected:", (len(want), want.hex()[:120]))
         return ok
     if "seq" in r:
         seq = [tuple(x) for x in r["seq"]]
